@@ -127,10 +127,10 @@ PROPS['C09'] = {
     'decided': ['Ukkonen matcher (Verus, unbounded): with_capacity, find_all_end and Matches::next on the real code — every reported pair (i, d) has d <= k and d == ed(i+1, m), the Sellers recurrence with the cost function as substitution cost; every end position passed over without a report has ed > k; the cut-off invariant (cells beyond lastk are above k, stale cells >= k) is preserved across calls, for every deterministic cost closure, every k and m with m + k + 2^32 < usize::MAX, and every reuse of the Ukkonen object',
                 'distance::hamming equals the textbook Hamming distance (equal lengths: the documented panic is the precondition); levenshtein, simd::hamming, simd::levenshtein and simd::bounded_levenshtein equal the textbook definitions GIVEN the assumed contracts of the external crates they delegate to - in particular the clamp of the bound to max(|a|,|b|) never changes the answer (lev <= max length proved), so None is returned exactly when the distance exceeds k; the `as u32` truncations are exact below 2^32 symbols',
                 'one Myers column step (the real Myers::<T>::_step, T in u8/u16/u32 quick, u64 thorough) maps the bit-encoded DP column of the edit-distance recurrence to the next column, exactly, for every pattern length up to the word width, every match mask and every column (complete for the width: fixed-count loops with unwinding assertions)'],
-    'decided_extra': ['Myers iteration layer (unit C09/myers; the real code inside the impl_myers! macro body, located in the macro definition and instantiated like the simple.rs invocation at T = u64, DistType = u8; State::{init, known_dist}, Myers::{initial_state, step}, Myers::{distance, find_all_end, find_best_end}, Matches::{new, next}): GIVEN the contract of one column step that the Kani harnesses myers_step_* prove of the real _step (restated on a stub), the state after c text symbols encodes column c of the Sellers recurrence `edm` over the match table (induction over text positions, from the all-ones initial state); Matches::next reports exactly the pairs (end position, D[m][end]) with D <= max_dist, in text order, passing over only positions above max_dist; distance() is the minimum over all end positions (u8::MAX on the empty text); find_best_end returns the FIRST end position of minimal distance (rule R54: min_by_key keeps the first minimum); theorem_edm_is_min: `edm` equals the minimum over start positions of the textbook edit distance to the substring ending there; lemma_levm_exact: with a table that encodes a pattern exactly this is the unit-cost Levenshtein distance (with ambiguity / wildcard bits it is the same distance under the table match relation)', 'theorem_ed_is_min (unit C09/ukkonen): the Sellers recurrence `ed` the matcher is proved against equals the minimum, over all start positions, of the textbook edit distance `lev` between the pattern (prefix) and the text substring ending at the position - so the reported d is literally "the minimum edit distance between the pattern and any text substring ending at that position"', 'one block step of the block-based Myers algorithm (the real long.rs advance_block, T in u8/u16 quick, u32/u64 thorough; complete Kani proofs over the whole word width): the bit-encoded vertical deltas of one block and the incoming horizontal delta map to exactly the edit-distance recurrence column of the block, the outgoing horizontal delta at the bound row and the distance update'],
-    'undecided': ['the Myers iteration layer at word widths other than u64 and for the block-based States (unit C09/myers instantiates the macro at T = u64, DistType = u8); Myers::new / MyersBuilder (that the peq table encodes the pattern and its ambiguity / wildcard tables); the traceback-keeping iterators FullMatches / LazyMatches', 'block-based Myers (long.rs) beyond the block step: States::step (carry propagation between blocks, the max_dist band), the iteration layer',
+    'decided_extra': ['Myers iteration layer (unit C09/myers; the real code inside the impl_myers! macro body, located in the macro definition and instantiated like the simple.rs invocation at T = u64, DistType = u8; State::{init, known_dist}, Myers::{new, new_ambig, initial_state, step}, Myers::{distance, find_all_end, find_best_end}, Matches::{new, next}): GIVEN the contract of one column step that the Kani harnesses myers_step_* prove of the real _step (restated on a stub), the state after c text symbols encodes column c of the Sellers recurrence `edm` over the match table (induction over text positions, from the all-ones initial state); Matches::next reports exactly the pairs (end position, D[m][end]) with D <= max_dist, in text order, passing over only positions above max_dist; distance() is the minimum over all end positions (u8::MAX on the empty text); find_best_end returns the FIRST end position of minimal distance (rule R54: min_by_key keeps the first minimum); theorem_edm_is_min: `edm` equals the minimum over start positions of the textbook edit distance to the substring ending there; lemma_levm_exact: with a table that encodes a pattern exactly this is the unit-cost Levenshtein distance (with ambiguity / wildcard bits it is the same distance under the table match relation); Myers::new_ambig builds exactly that table: bit i of peq[a] is set iff pattern[i] == a, or a is listed as an equivalent of pattern[i] in the ambiguity map, or a is a wildcard symbol (rules R55 `for &x in e`, R56 Option::and_then; HashMap::get stub) - so Myers::new(p) encodes p exactly and theorem_myers_exact gives: every reported distance is the minimum over all substrings ending there of the unit-cost Levenshtein distance to p', 'theorem_ed_is_min (unit C09/ukkonen): the Sellers recurrence `ed` the matcher is proved against equals the minimum, over all start positions, of the textbook edit distance `lev` between the pattern (prefix) and the text substring ending at the position - so the reported d is literally "the minimum edit distance between the pattern and any text substring ending at that position"', 'one block step of the block-based Myers algorithm (the real long.rs advance_block, T in u8/u16 quick, u32/u64 thorough; complete Kani proofs over the whole word width): the bit-encoded vertical deltas of one block and the incoming horizontal delta map to exactly the edit-distance recurrence column of the block, the outgoing horizontal delta at the bound row and the distance update'],
+    'undecided': ['the Myers iteration layer at word widths other than u64 and for the block-based States (unit C09/myers instantiates the macro at T = u64, DistType = u8); MyersBuilder (building the ambiguity map and wildcard list handed to new_ambig); the traceback-keeping iterators FullMatches / LazyMatches', 'block-based Myers (long.rs) beyond the block step: States::step (carry propagation between blocks, the max_dist band), the iteration layer',
                   'edit distance as a minimum over explicit edit scripts (the textbook Wagner-Fischer recursion `lev` is taken as the definition of edit distance)', 'the external crates triple_accel and editdistancek themselves (assumed contracts; covered by the bounded stand-in only)'],
-    'trusted': ['unit C09/myers: the contract of Myers::_step is restated on an external_body stub (discharged by the Kani harnesses, a second tool: composition by reading); generic text iterators instantiated at &[u8] (hand-declared INST rewrites; slice_into_iter / enumerate_iter stubs), num_traits stubs (u64::zero, max_value)', 'std::cmp::min spec, Enumerate<slice::Iter> model and the enumerate_slice stub (Ukkonen unit; generic text iterator instantiated at &[u8])', 'cost closure assumed deterministic and total (requires of find_all_end)', 'ASSUMED: editdistancek::{edit_distance, edit_distance_bounded}, triple_accel::{hamming, levenshtein_exp} compute the textbook distances', 'Kani/CBMC; dist <= 200 and non-negative column entries assumed in the harness (true of every reachable column)'],
+    'trusted': ['unit C09/myers: the contract of Myers::_step is restated on an external_body stub (discharged by the Kani harnesses, a second tool: composition by reading); generic text iterators instantiated at &[u8] (hand-declared INST rewrites; slice_into_iter / enumerate_iter stubs), num_traits stubs (zero, one, max_value, from_usize, to_usize at u64/u8), HashMap<u8, Vec<u8>>::get stub (finite map), iter_len stub (ExactSizeIterator::len)', 'std::cmp::min spec, Enumerate<slice::Iter> model and the enumerate_slice stub (Ukkonen unit; generic text iterator instantiated at &[u8])', 'cost closure assumed deterministic and total (requires of find_all_end)', 'ASSUMED: editdistancek::{edit_distance, edit_distance_bounded}, triple_accel::{hamming, levenshtein_exp} compute the textbook distances', 'Kani/CBMC; dist <= 200 and non-negative column entries assumed in the harness (true of every reachable column)'],
     'level_text': 'Verus proves the Ukkonen cut-off matcher (find_all_end + Matches::next) equal to the edit-distance recurrence for all inputs and all reuse histories. Complete (not bounded) Kani proofs that one column step of the real bit-parallel Myers implementation equals the DP recurrence, per word width; everything around the step (iteration over the text, the block version, the distance functions) is not decided by this check.',
     'level_note': 'Level other (partial): the step is proved, the property as a whole is not. Trusted: Kani 0.68/CBMC 6.11; harness assumptions listed in evidence.',
     'technique': 'Verus contracts on the real Ukkonen code (mechanical mirror) + loop-free/fixed-width Kani (CBMC) proof harness over the real function, complete for the word width',
